@@ -86,10 +86,10 @@ def sel(items, i):
     return res
 
 
-def mk_array(ex, path, name, n=None, ascending=False, strict=False, floats=True, prov=None, min_len=0, kind="real"):
+def mk_array(ex, path, name, n=None, ascending=False, strict=False, floats=True, prov=None, min_len=0, kind="real", exact_name=None):
     """fresh 1-D array value.  n=None: symbolic length (z3 Array + Int);  n=int: ground array of that length."""
     if n is None or not pyint(n):
-        A = Array(f"{name}!{next(ex.fresh)}", IntSort(), RealSort())
+        A = Array(exact_name or f"{name}!{next(ex.fresh)}", IntSort(), RealSort())
         N = Int(f"{name}_len!{next(ex.fresh)}") if n is None else n
         t = T((Axis(name, N),), lambda i: A[toI(i)], kind=kind, prov=prov or "fresh", sym=(A, N))
         path.add(N >= min_len)
@@ -640,7 +640,11 @@ def p_sort(ex, path, x, **kw):
             path.add(ground_cnt(new.items, w, False) == ground_cnt(vals, w, False))
     else:
         n = toI(x.axes[0].size)
-        new = mk_array(ex, path, "sorted", n, ascending=True, floats=True)
+        # deterministic name: np.sort is a function of its input (two executions on the same input talk about the same array)
+        nm = None
+        if key is not None and key[0] in ("sym", "cat"):
+            nm = "sorted(" + ",".join(str(p.sym[0]) for p in ([x] if x.sym is not None else x.parts)) + ")"
+        new = mk_array(ex, path, "sorted", n, ascending=True, floats=True, exact_name=nm)
         A, N = new.sym
         if "cnt" in x.facts:
             v = Real("v!srt")
